@@ -24,6 +24,15 @@ CHECKS = {
  'C05': dict(design='4/C05', technique='TLA+ trace validation (TLC) against Fzf!SubstringPos / PrefixPos / PostfixPos / ExactPos',
    text="Every recorded substring/prefix/postfix/exact call is judged by TLC against the relations of Fzf.tla: decision, the leftmost occurrence with the highest first-character bonus, whitespace trimming rules; the relations' own coherence lemmas are TLC-exhaustive on small strings.",
    note=MATCHER_NOTE),
+ 'C14': dict(design='4/C14', technique='TLA+ grammar function (PatternGrammar.tla) as oracle; TLC validates parse records; TLC-exhaustive round-trip lemma',
+   text="The pattern syntax is transcribed into TLA+ as a function from text to atoms (PatternGrammar.tla). TLC proves by exhaustion over all texts <= 5 (thorough 6) on a 10-symbol marker alphabet the round-trip lemma (parsing Escape(lit) yields one fuzzy atom with needle lit) and that empty atoms are dropped; every record of the real parser (all texts <= 4 over a 13-symbol marker/whitespace/escape/non-ASCII alphabet x 6 settings through Pattern::parse, rotating Pattern::new/Atom::parse/Atom::new, random longer texts, reparse histories) is consumed by PatternTrace whose action requires atoms = Parse(text) including the private case/normalisation flags.",
+   note="Trusted: TLC; Debug output of Atom for the two private flags; the crate's public fold/normalise/is_upper_case maps (C16). Texts avoid multi-code-point graphemes (C17)."),
+ 'C16': dict(design='4/C16', technique='TLA+ (CharsCheck.tla) over the complete dumped graph of the three public maps + probe-match disagreement sets; exhaustive over all 1,112,064 scalars',
+   text="Finite domain decided completely: the harness dumps the full non-identity graph of normalize / to_lower_case / is_upper_case over all scalar values and, for each (ignore_case, normalize) configuration and each scalar, five probe matches that observe the matcher's internal normalisation routines; TLC consumes every dump entry (one action each) and checks equality with reference simple case folding, the decomposition-base rule inside the documented blocks, idempotence, ASCII fixed points, block confinement, agreement of the routines, and completeness against the reference tables.",
+   note="Trusted: Python unicodedata (Unicode 14.0) as reference; code points unassigned there are reported as unchecked. Probes observe internals only through match results."),
+ 'C17': dict(design='4/C17', technique='UAX #29 rule machine in TLA+ (Graphemes.tla) + Utf32.tla as oracle; TLC validates conversion records; TLC-exhaustive rule lemmas',
+   text="Extended grapheme cluster rules GB3-GB13 incl. GB9c are written as a TLA+ fold (independent of the unicode-segmentation crate); TLC checks the rule machine's lemmas on all class strings <= 4 (thorough 5) and validates every conversion record of the real code (all strings <= 2 quick / 3 thorough plus strided longer and random ones over 33 segmentation-relevant code points): all six constructors, len, get, chars forwards/backwards, Display and every slice form of Utf32Str and Utf32String must equal Convert(s).",
+   note="Trusted: hand-assigned break classes of 33 code points (stable across Unicode 15.1-16.0); TLC."),
  'C10': dict(design='4/C10', technique='TLA+ trace validation (TLC): no panic, used matcher = fresh matcher per call; SlabLayout model',
    text="Every recorded call must return without panic (harness built with overflow checks and debug assertions; a panic is a recorded outcome judged by the spec) and the outcome on a long-lived matcher that served all earlier calls of its trace must equal the outcome on a fresh matcher (MatcherTrace hist clause). Sizes on and around every limit are part of the L and W families.",
    note=MATCHER_NOTE + " Out-of-bounds accesses through in-bounds views are not observable by this technique."),
